@@ -3,7 +3,7 @@
 
 #define MAXA 8
 #define MAXR 4
-enum { E_WAIT = 0, E_SET, E_TEST, E_N };
+enum { E_WAIT = 0, E_SET, E_TEST, E_N, E_TWAIT /* a tasklet's wait: refused under the 1.x API */ };
 
 static struct {
     wl_rt rt;
@@ -15,7 +15,7 @@ static struct {
     volatile uint64_t winner_val[MAXR];
     volatile int gate[MAXR], arrived_end[MAXR];
     wl_actor A[MAXA];
-    long tests_ready, tests_notready, waits_blocked_first;
+    long tests_ready, tests_notready, waits_blocked_first, tasklet_refusals;
 } S;
 
 static void check_value(void *buf, int r, const char *api, int id)
@@ -45,9 +45,16 @@ static void ev_body(wl_actor *a)
         int op = a->ops[r], arg = a->args[r];
         for (int k = 0; k < (arg & 3); k++)
             wl_actor_pause(a, 1);
-        if (a->kind == AK_TASKLET && op == E_WAIT)
+        if (op == E_TWAIT && a->kind != AK_TASKLET)
             op = E_TEST;
         switch (op) {
+            case E_TWAIT: {
+                void *buf = (void *)1;
+                int rc = ABT_eventual_wait(S.ev, &buf);
+                SIM_CHECK(rc == ABT_ERR_EVENTUAL, "eventual:tasklet", "ABT_eventual_wait called by a tasklet returned %d, documented: ABT_ERR_EVENTUAL (%d)", rc, ABT_ERR_EVENTUAL);
+                S.tasklet_refusals++;
+                break;
+            }
             case E_WAIT: {
                 void *buf = (void *)1;
                 if (!S.set_invoked[r])
@@ -124,7 +131,7 @@ static void run_c09_eventual(void)
         for (int r = 0; r < S.R; r++) {
             int op = (i == 0) ? E_SET : (int)plan_n(E_N); /* every round has a setter */
             if (a->kind == AK_TASKLET && op == E_WAIT)
-                op = E_TEST;
+                op = E_TWAIT;
             /* a tasklet gate-spins on its stream: it must not be needed by ... nothing here blocks on it */
             a->ops[r] = op;
             a->args[r] = (int)plan_n(8);
@@ -132,7 +139,7 @@ static void run_c09_eventual(void)
                 S.nwait[r]++;
             if (op == E_SET)
                 S.nset[r]++;
-            sim_note(" %s", opn[op]);
+            sim_note(" %s", op == E_TWAIT ? "refused-wait" : opn[op]);
         }
         sim_note("] ");
     }
@@ -163,6 +170,7 @@ static void run_c09_eventual(void)
     }
     sim_count("c09.waits_blocked_before_set", (uint64_t)S.waits_blocked_first);
     sim_count("c09.tests_ready", (uint64_t)S.tests_ready);
+    sim_count("c09.tasklet_waits_refused", (uint64_t)S.tasklet_refusals);
     ABT_OK(ABT_eventual_free(&S.ev));
     wl_rt_stop(rt);
 }
@@ -204,9 +212,13 @@ static void fut_body(wl_actor *a)
     int op = a->ops[0], arg = a->args[0];
     for (int k = 0; k < (arg & 3); k++)
         wl_actor_pause(a, 1);
-    if (a->kind == AK_TASKLET && op == E_WAIT)
-        op = E_TEST;
     switch (op) {
+        case E_TWAIT: {
+            int rc = ABT_future_wait(F.fut);
+            SIM_CHECK(rc == ABT_ERR_FUTURE, "future:tasklet", "ABT_future_wait called by a tasklet returned %d, documented: ABT_ERR_FUTURE (%d)", rc, ABT_ERR_FUTURE);
+            sim_count("c09.tasklet_waits_refused", 1);
+            break;
+        }
         case E_WAIT:
             ABT_OK(ABT_future_wait(F.fut));
             SIM_CHECK(F.sets_invoked >= F.k, "future:wait-before-ready", "ABT_future_wait returned after only %d of %d sets were invoked", F.sets_invoked, F.k);
@@ -284,9 +296,11 @@ static void run_c09_future(void)
         a->ops[0] = i < F.k + extra_sets ? E_SET : i < F.k + extra_sets + nwait ? E_WAIT : E_TEST;
         if (a->ops[0] == E_WAIT && a->kind == AK_TASKLET)
             a->kind = AK_ULT;
+        if (a->ops[0] == E_TEST && a->kind == AK_TASKLET && plan_bool())
+            a->ops[0] = E_TWAIT; /* a tasklet tries to wait: refused, and the future is none the worse for it */
         a->args[0] = (int)plan_n(8);
         a->args[1] = i < 8 ? i : 7;
-        sim_note("%s:%s ", wl_actor_kind_names[a->kind], a->ops[0] == E_SET ? "set" : a->ops[0] == E_WAIT ? "wait" : "test");
+        sim_note("%s:%s ", wl_actor_kind_names[a->kind], a->ops[0] == E_SET ? "set" : a->ops[0] == E_WAIT ? "wait" : a->ops[0] == E_TWAIT ? "refused-wait" : "test");
     }
     if (F.k == 0) {
         ABT_bool ready = ABT_FALSE;
@@ -344,3 +358,112 @@ static void run_c09_future(void)
     wl_rt_stop(rt);
 }
 SIM_WORKLOAD("C09", "future", run_c09_future, 6)
+
+/* ------------------------------------------------------------------ re-arm: set immediately followed by reset
+ * The usual way to re-use an eventual as a recurring event: ABT_eventual_set() wakes everybody
+ * who is waiting, ABT_eventual_reset() follows at once, while the woken callers have not
+ * necessarily returned (or even run) yet.  Every caller that was waiting at the set must
+ * return; a caller that arrives between set and reset returns at once; one that arrives after
+ * the reset waits for the next set.  The setter keeps going as long as somebody waits, so a
+ * waiter that never returns was lost by the library. */
+static struct {
+    wl_rt rt;
+    ABT_eventual ev;
+    int nbytes, nA;
+    volatile int sets_invoked, resets_done, in_wait, waiters_left;
+    long waits_ret, blocked_first;
+    wl_actor A[MAXA];
+} RA;
+#define RA_TAG 0xea0000ULL
+
+static void ra_waiter(wl_actor *a)
+{
+    for (int i = 0; i < a->nops; i++) {
+        a->cur_op = i;
+        for (int k = 0; k < (a->args[i] & 3); k++)
+            wl_actor_pause(a, 1);
+        int inv0 = RA.sets_invoked, res0 = RA.resets_done;
+        void *buf = (void *)1;
+        RA.in_wait++;
+        ABT_OK(ABT_eventual_wait(RA.ev, RA.nbytes ? &buf : NULL));
+        RA.in_wait--;
+        /* every set invoked so far had been followed by a completed reset: the eventual was not
+         * ready, and only a new set can have released this wait */
+        if (inv0 == res0) {
+            RA.blocked_first++;
+            SIM_CHECK(RA.sets_invoked > inv0, "eventual:wait-before-set", "re-arm: ABT_eventual_wait of actor %d returned although no ABT_eventual_set was invoked after the last reset (sets %d, resets %d)",
+                      a->id, RA.sets_invoked, RA.resets_done);
+        }
+        if (RA.nbytes) {
+            SIM_CHECK(buf != NULL && buf != (void *)1, "eventual:value", "re-arm: ABT_eventual_wait returned no buffer");
+            uint64_t v = *(volatile uint64_t *)buf;
+            /* the value of the set that released the wait, or of a later one */
+            SIM_CHECK((v >> 16) == RA_TAG && (int)(v & 0xffff) > res0 && (int)(v & 0xffff) <= RA.sets_invoked, "eventual:value",
+                      "re-arm: actor %d read %#lx after its wait; expected the value of a set number in (%d, %d]", a->id, (unsigned long)v, res0, RA.sets_invoked);
+        }
+        RA.waits_ret++;
+        sim_progress();
+        /* let the reset that belongs to the releasing set happen before waiting again */
+        int s = RA.sets_invoked;
+        while (RA.resets_done < s)
+            wl_actor_pause(a, 1);
+    }
+    RA.waiters_left--;
+}
+static void ra_setter(wl_actor *a)
+{
+    while (RA.waiters_left > 0) {
+        if (RA.in_wait == 0) {
+            wl_actor_pause(a, 1);
+            continue;
+        }
+        for (int k = 0; k < (a->args[0] & 7); k++)
+            wl_actor_pause(a, 1);
+        uint64_t v = (RA_TAG << 16) | (uint64_t)(RA.sets_invoked + 1);
+        RA.sets_invoked++;
+        ABT_OK(ABT_eventual_set(RA.ev, RA.nbytes ? &v : NULL, RA.nbytes));
+        if (a->args[1] & 1)
+            wl_actor_pause(a, 0);
+        ABT_OK(ABT_eventual_reset(RA.ev));
+        RA.resets_done++;
+        wl_actor_pause(a, 1); /* a ULT setter shares its stream with the waiters it has just released */
+    }
+}
+static void ra_diag(char *buf, int sz)
+{
+    int k = snprintf(buf, (size_t)sz, "re-arm: sets=%d resets=%d in_wait=%d waiters_left=%d waits_ret=%ld ", RA.sets_invoked, RA.resets_done, RA.in_wait, RA.waiters_left, RA.waits_ret);
+    wl_actors_diag(RA.A, RA.nA, buf + k, sz - k);
+}
+static void run_c09_rearm(void)
+{
+    memset(&RA, 0, sizeof RA);
+    sim_set_diag_cb(ra_diag);
+    wl_rt *rt = &RA.rt;
+    wl_rt_start(rt, WL_RT_NO_TOPO2);
+    RA.nbytes = plan_n(4) ? 8 : 0;
+    ABT_OK(ABT_eventual_create(RA.nbytes, &RA.ev));
+    int n = plan_range(2, sim_limit("actors", 6));
+    RA.nA = n;
+    int ext_bias = (int)plan_n(3); /* 0: mostly ULTs, 2: mostly external threads */
+    sim_note("C09 eventual re-arm nbytes=%d: ", RA.nbytes);
+    for (int i = 0; i < n; i++) {
+        wl_actor *a = &RA.A[i];
+        a->id = i;
+        a->kind = (int)plan_n(4) <= ext_bias ? AK_EXT : AK_ULT;
+        a->pool = (int)plan_n((uint32_t)rt->npools);
+        a->body = i == 0 ? ra_setter : ra_waiter;
+        a->nops = i == 0 ? 1 : plan_range(1, sim_limit("ops", 3));
+        for (int j = 0; j < a->nops; j++)
+            a->args[j] = (int)plan_n(8);
+        a->args[1] = (int)plan_n(8);
+        sim_note("%s@%d:%s%d ", wl_actor_kind_names[a->kind], a->pool, i == 0 ? "setter" : "waits", i == 0 ? 0 : a->nops);
+    }
+    RA.waiters_left = n - 1;
+    wl_actors_spawn(rt, RA.A, n);
+    wl_actors_join(rt, RA.A, n);
+    sim_count("c09.rearm_sets", (uint64_t)RA.sets_invoked);
+    sim_count("c09.rearm_waits_released_by_a_later_set", (uint64_t)RA.blocked_first);
+    ABT_OK(ABT_eventual_free(&RA.ev));
+    wl_rt_stop(rt);
+}
+SIM_WORKLOAD("C09", "eventual-rearm", run_c09_rearm, 6)
